@@ -66,7 +66,19 @@ int sprintf(char *dst, const char *fmt, ...)
   dst[n] = 0;
   return (int)n;
 }
+/* allocation accounting for the import code (leak obligations): every malloc / strdup / free of topology-xml.c goes through
+ * these counting wrappers; the strings the backend stubs deliver are allocated before the macros exist and are not counted */
+long verif_live_allocs;
+static void *verif_counting_malloc(size_t n) { void *p = malloc(n); if (p) verif_live_allocs++; return p; }
+static char *verif_counting_strdup(const char *s) { size_t n = strlen(s) + 1; char *p = malloc(n); if (p) { size_t i; for (i = 0; i < 16; i++) if (i < n) p[i] = s[i]; verif_live_allocs++; } return p; }
+static void verif_counting_free(void *p) { if (p) verif_live_allocs--; free(p); }
+#define malloc verif_counting_malloc
+#define strdup verif_counting_strdup
+#define free verif_counting_free
 #include HWLOC_VERIF_SRC_XML
+#undef malloc
+#undef strdup
+#undef free
 
 int hwloc_type_sscanf(const char *string, hwloc_obj_type_t *typep, union hwloc_obj_attr_u *attrp, size_t attrsize)
 {
@@ -88,7 +100,7 @@ int hwloc_internal_distances_add_by_index(hwloc_topology_t topology, const char 
   __CPROVER_assert(!different_types || __CPROVER_r_ok(different_types, (size_t)nbobjs * sizeof(*different_types)), "add_by_index: nbobjs readable types");
   if (name) (void)name[0];
   verif_add_calls++; verif_add_name = name; verif_add_nbobjs = nbobjs; verif_add_kind = kind;
-  free(indexes); free(values); free(different_types);
+  verif_counting_free(indexes); verif_counting_free(values); verif_counting_free(different_types);
   return 0;
 }
 /* base64.c is not part of this TU: contract of hwloc_decode_from_base64 (checked on the real function under C05/C06): reads the
